@@ -67,9 +67,12 @@ STATEMENT_STATUS: Dict[str, str] = {
     "C16_page_ctm": "proved (regenerated process_page table)",
     "C16_no_residue": "proved", "C16_n_paints_nothing": "proved",
     "C16_gstack_untouched": "proved", "C16_qQ_restores": "proved", "C16_q_saves": "proved",
-    "C16_shapes (whole programs, DESIGN section 6)": "not proved: the induction over token streams "
-        "(operand stack, colour operators, q/Q) is covered by the correspondence check only; pattern colours "
-        "are an open finding",
+    "C16_shapes_statement": "counter-example proved (C16_shapes_statement_cex); open findings",
+    "C16_shapes_partial": "partial: whole token streams of all well-formed programs, every page set-up and "
+                          "resource colour-space map; excludes (explicit hypotheses) the order of a rectangle's "
+                          "points, pattern colours, sc-family operand counts other than 1/3/4",
+    "C16_shapes_statement_cex": "proved counter-example", "C16_pattern_cex": "proved counter-example",
+    "C16_arity_cex": "proved counter-example",
 }
 
 # --------------------------------------------------------------------------- operators
@@ -515,6 +518,8 @@ CS_POOL = [
     {"PU": ("arr", "Pattern"), "Lb": ("arr", "Lab"), "CG": ("arr", "CalGray"), "CR": ("arr", "CalRGB"),
      "D4": ("devn", 4), "D1": ("devn", 1)},
 ]
+# colour spaces with a number of components other than 1, 3, 4 (used by every 8th document only)
+CS_ODD = {"D2": ("devn", 2), "D5": ("devn", 5), "I2": ("icc", 2)}
 
 
 class Gen:
@@ -770,6 +775,8 @@ def failure_tags(case, d) -> Dict[str, Any]:
         e, g = d["e"], d["g"]
         tags["rect_pts_reversed"] = d["fields"] == ["pts"] and rect_reversed(e, g)
         tags["expected_pattern"] = all(e[k].startswith("P:") for k in d["fields"]) and set(d["fields"]) <= {"sc", "nc"}
+        tags["arity_unsupported"] = set(d["fields"]) <= {"sc", "nc"} and all(
+            not e[k].startswith("P:") and e[k] != "-" and len(e[k].split(",")) not in (1, 3, 4) for k in d["fields"])
     tags["segment_after_h"] = any(a == "h" and b in SEGOPS for a, b in zip(opnames, opnames[1:])) or \
         any(a == "re" and b in SEGOPS for a, b in zip(opnames, opnames[1:]))
     tags["has_F"] = "F" in opnames
@@ -794,7 +801,7 @@ def same_failure(case, sig, tags0) -> Optional[Dict[str, Any]]:
     for d in prop_failures(case):
         if signature(d) == sig:
             t = failure_tags(case, d)
-            if all(t.get(k) == tags0.get(k) for k in ("rect_pts_reversed", "expected_pattern")):
+            if all(t.get(k) == tags0.get(k) for k in ("rect_pts_reversed", "expected_pattern", "arity_unsupported")):
                 return d
     return None
 
@@ -847,6 +854,7 @@ def report_failure(ctx: C.Ctx, case, d) -> None:
 CLASSIFIERS = {
     "c16_ltrect_pts_canonical_order": lambda f: bool(f.tags.get("rect_pts_reversed")),
     "c16_pattern_colour_not_recorded": lambda f: bool(f.tags.get("expected_pattern")),
+    "c16_colour_arity_unsupported": lambda f: bool(f.tags.get("arity_unsupported")),
     "c16_segment_after_h_not_split": lambda f: bool(f.tags.get("segment_after_h")) and
     f.tags.get("fields") in (["count"], ["kind"], ["pts"], ["kind", "pts"]),
 }
@@ -903,7 +911,7 @@ def check_batch(ctx: C.Ctx, cases: List[Dict[str, Any]], in_domain: bool, seen_s
                 ctx.branch("propfail:" + "+".join(d["fields"]))
                 t = failure_tags(case, d)
                 sig = (signature(d), t.get("rect_pts_reversed"), t.get("expected_pattern"), t.get("segment_after_h"),
-                       t.get("has_F"))
+                       t.get("has_F"), t.get("arity_unsupported"))
                 if sig not in seen_sigs and len(seen_sigs) < 12:
                     seen_sigs.add(sig)
                     report_failure(ctx, case, d)
@@ -940,6 +948,8 @@ def run(ctx: C.Ctx) -> None:
             break
         doc = gen_doc(rng)
         mode = di % 6
+        if di % 8 == 7:
+            doc["cs"] = dict(doc["cs"], **{k: list(v) for k, v in CS_ODD.items()})
         # 0-2: plain in-domain; 3: + pattern colours; 4: + segments after h; 5: wild (tie only)
         cases = [gen_case(rng, doc, patterns=(mode == 3), after_h=(mode == 4)) for _ in range(per)]
         if mode == 5:
